@@ -19,19 +19,21 @@ use tokio::task::LocalSet;
 
 pub const OWN_ID: &[u8; 20] = b"-RD0001-ownownownown";
 
-#[derive(Clone, Debug)]
+#[derive(Clone, Debug, PartialEq)]
 pub struct PeerCfg {
     pub addr: String,
     pub id: [u8; 20],
     /// true: the client connected to this peer (it knows the id the tracker announced and sends its
     /// handshake first); false: the peer connected to us.
     pub outgoing: bool,
+    /// Broadcasts reach this connection task at once even in a gated world.
+    pub ungated: bool,
 }
 
 pub fn peer_cfg(n: usize, outgoing: bool) -> PeerCfg {
     let mut id = *b"-PEER00-000000000000";
     id[6] = b'0' + n as u8;
-    PeerCfg { addr: format!("10.0.0.{}:6881", n + 1), id, outgoing }
+    PeerCfg { addr: format!("10.0.0.{}:6881", n + 1), id, outgoing, ungated: false }
 }
 
 #[derive(Clone)]
@@ -62,6 +64,8 @@ pub enum Ev {
     MgrNotInterested(usize),
     MgrStats(usize, Option<u32>, Option<u32>),
     MgrKill(usize),
+    /// A new connection appears (outgoing: the client connects and speaks first).
+    AddPeer(PeerCfg),
 }
 
 pub struct PeerSide {
@@ -93,8 +97,11 @@ pub struct World {
     /// Commands the manager handled during the last step (Debug, shortened).
     pub cmds: Vec<String>,
     pub choice_log: Vec<(usize, usize)>,
+    pub choice_groups: Vec<(usize, bool)>,
     /// Broadcasts the manager sent during the last step.
     pub broadcasts: Vec<BroadCmd>,
+    /// Broadcasts handed to a connection task by `Release` events of the last step: (peer, command).
+    pub released: Vec<(usize, BroadCmd)>,
     /// Addresses of manager-only peers (registered with the manager, no connection task).
     pub mgr_peers: Vec<String>,
     start: tokio::time::Instant,
@@ -149,7 +156,9 @@ impl World {
             handler_panics: vec![],
             cmds: vec![],
             choice_log: vec![],
+            choice_groups: vec![],
             broadcasts: vec![],
+            released: vec![],
             mgr_peers: vec![],
             start,
             steps: 0,
@@ -214,11 +223,20 @@ impl World {
     fn run_step(&mut self, ev: Option<&Ev>, digits: &[usize]) {
         self.cmds.clear();
         self.broadcasts.clear();
+        self.released.clear();
+        if let Some(Ev::Release(i)) = ev {
+            if let Some(cmd) = self.peers[*i].pending.front() {
+                self.released.push((*i, cmd.clone()));
+            }
+        }
         for p in self.peers.iter_mut() {
             p.new_from = p.msgs.len();
         }
         if self.dead.is_some() {
             return;
+        }
+        if let Some(Ev::AddPeer(cfg)) = ev {
+            self.add_peer(cfg.clone());
         }
         self.steps += 1;
         rdest::verif::set_choices(digits.to_vec());
@@ -227,6 +245,13 @@ impl World {
         let start = *start;
         let res = core::catch(|| {
             local.block_on(rt, async {
+                // a deadlock between manager and a connection task shows as virtual time running
+                // away (only timers are left to fire): bound it
+                let horizon = match ev {
+                    Some(Ev::AdvanceTo(ms)) => start + Duration::from_millis(*ms) + Duration::from_secs(3600),
+                    _ => tokio::time::Instant::now() + Duration::from_secs(3600),
+                };
+                let body = async {
                 let mut manager_err: Option<String> = None;
                 match ev {
                     Some(Ev::Feed(i, bytes)) => peers[*i].pipe.feed(bytes),
@@ -245,6 +270,7 @@ impl World {
                     Some(Ev::AdvanceTo(ms)) => {
                         tokio::time::sleep_until(start + Duration::from_millis(*ms)).await;
                     }
+                    Some(Ev::AddPeer(_)) => {}
                     Some(mgr_ev) => {
                         use rdest::verif::{Bitfield, PeerCmd};
                         let tx = session.verif_peer_tx();
@@ -296,7 +322,7 @@ impl World {
                             Ok(cmd) => {
                                 broadcasts.push(cmd.clone());
                                 for p in peers.iter_mut() {
-                                    if gated {
+                                    if gated && !p.cfg.ungated {
                                         p.pending.push_back(cmd.clone());
                                     } else {
                                         progressed = true;
@@ -317,8 +343,14 @@ impl World {
                     }
                 }
                 manager_err
+                };
+                match tokio::time::timeout_at(horizon, body).await {
+                    Ok(r) => r,
+                    Err(_) => Some("DEADLOCK: the step did not reach quiescence within an hour of virtual time (manager and a task wait for each other)".to_string()),
+                }
             })
         });
+        self.choice_groups = rdest::verif::take_choice_groups();
         self.choice_log = rdest::verif::take_choice_log();
         match res {
             Ok(None) => {}
